@@ -19,6 +19,7 @@ import (
 	"hash/fnv"
 	"math/rand/v2"
 	"strings"
+	"sync"
 	"testing"
 
 	"golang.org/x/net/http2/hpack"
@@ -181,6 +182,31 @@ func c07ListProblem(fs []hpackref.Field) (problem, detail string, unspecified bo
 
 type c07Mon struct {
 	r *verifrt.R
+
+	// Free list of 16 MiB read buffers. Framer.ReadFrame allocates the announced frame
+	// length before it reads the payload; with the 2^24-1 read limit, garbage headers cost
+	// megabytes each, and on the shared test machine fresh memory is ~1000x slower than
+	// resident memory. Pre-seeding Framer.readBuf (the Framer's own cache for exactly this
+	// buffer) changes nothing observable.
+	mu   sync.Mutex
+	bufs [][]byte
+}
+
+func (m *c07Mon) getBuf() []byte {
+	m.mu.Lock()
+	defer m.mu.Unlock()
+	if n := len(m.bufs); n > 0 {
+		b := m.bufs[n-1]
+		m.bufs = m.bufs[:n-1]
+		return b
+	}
+	return make([]byte, h2ref.MaxFrameLen)
+}
+
+func (m *c07Mon) putBuf(b []byte) {
+	m.mu.Lock()
+	m.bufs = append(m.bufs, b)
+	m.mu.Unlock()
 }
 
 type c07Stats struct {
@@ -202,6 +228,11 @@ func (m *c07Mon) walk(c *verifrt.Case, cfg c07Cfg, wire []byte) (st c07Stats) {
 	fr.MaxHeaderListSize = cfg.ListSize
 	if cfg.Reuse {
 		fr.SetReuseFrames()
+	}
+	if cfg.MaxRead > 1<<16 {
+		b := m.getBuf()
+		fr.readBuf = b
+		defer m.putBuf(b)
 	}
 	var hdec *hpackref.Decoder
 	if cfg.Meta {
